@@ -394,6 +394,7 @@ def check(chk):
     _snapshots_and_jam(chk, repo)
     _eject_outcome_and_give_up(chk, repo)
     _claims_move_in_pairs(chk, repo)
+    _tracking_starts_from_stable_count(chk, repo)
 
 
 def _snapshots_and_jam(chk, repo):
@@ -532,6 +533,31 @@ def _claims_move_in_pairs(chk, repo):
     chk.ob("CLAIM-4", "transfers between unclaimed pools examined (%d)" % n, n >= 2, BD + ":1", nontrivial=False)
 
 
+def _tracking_starts_from_stable_count(chk, repo):
+    """STABLE-4: an eject is tracked from a settled count: EjectTracker.will_eject waits for the counter to be stable before it registers for
+    count changes and before it asks the counter to watch the ball leave (an arrival that is still settling would otherwise be seen as
+    activity of this eject: a returned / extra ball, and the counts drift); the entrance counter's wait_for_ball_to_leave does the same."""
+    PB = "mpf/devices/ball_device/physical_ball_counter.py"
+    ES_ = "mpf/devices/ball_device/entrance_switch_counter.py"
+    w = repo.func(PB, "EjectTracker.will_eject")
+    chk.analysed(w)
+    cfg = w.cfg()
+    st = [n for n in cfg.nodes if n.kind == "stmt" and n.has_await() and "wait_for_count_stable" in n.text(200)]
+    reg = [n for n, c in cfg.calls_named("register_change_stream")]
+    lv = [n for n, c in cfg.calls_named("wait_for_ball_to_leave")]
+    ok = len(st) >= 1 and len(reg) == 1 and len(lv) == 1 and cfg.dominates(st[0].id, reg[0].id) and cfg.dominates(st[0].id, lv[0].id) and not cfg.guards_at(st[0].id)
+    chk.ob("STABLE-4", "EjectTracker.will_eject waits for a stable count before it registers for changes and watches the ball leave", ok, w.where(),
+           construct=w.ident, text="eject tracking from a stable count")
+    e = repo.func(ES_, "EntranceSwitchCounter.wait_for_ball_to_leave")
+    chk.analysed(e)
+    ecfg = e.cfg()
+    st2 = [n for n in ecfg.nodes if n.kind == "stmt" and n.has_await() and "wait_for_count_stable" in n.text(200)]
+    later = [n for n in ecfg.nodes if n.kind == "stmt" and n.ast is not None and st2 and n.id != st2[0].id and not (isinstance(n.ast, ast.Expr) and isinstance(n.ast.value, ast.Constant))]
+    ok = len(st2) == 1 and not ecfg.guards_at(st2[0].id) and all(ecfg.dominates(st2[0].id, n.id) for n in later)
+    chk.ob("STABLE-4", "the entrance counter lets a pending count settle before it reports the ball as leaving", ok, e.where(), construct=e.ident,
+           text="entrance counter leave from a stable count")
+
+
 def battery():
     from sa.battery import M
     return [
@@ -570,6 +596,8 @@ def battery():
         M("idle mechanical eject assumed to have left", "mpf/devices/ball_device/outgoing_balls_handler.py", "                    await self.ball_device.ball_count_handler.end_eject(ball_eject_process, result)\n                    if result:\n                        continue", "                    await self.ball_device.ball_count_handler.end_eject(ball_eject_process, True)\n                    if result:\n                        continue", "ENDEJ-4"),
         M("ball search writes off promised balls too", "mpf/core/ball_search.py", "        lost_balls = self.playfield.balls\n", "        lost_balls = self.playfield.available_balls\n", "GIVEUP-4"),
         M("idle mechanical eject keeps the ball in the device's pool (F19 reverted)", BD, "        self.available_balls -= 1\n        self.config['eject_targets'][0].available_balls += 1", "        self.config['eject_targets'][0].available_balls += 1", "CLAIM-4"),
+        M("eject tracked from an unsettled count", "mpf/devices/ball_device/physical_ball_counter.py", "        await self._ball_count_handler.counter.wait_for_count_stable()\n        ball_changes =", "        ball_changes =", "STABLE-4"),
+        M("entrance counter reports the leave without settling", "mpf/devices/ball_device/entrance_switch_counter.py", "        await self.wait_for_count_stable()\n        # wait 10ms", "        # wait 10ms", "STABLE-4"),
     ]
 
 
